@@ -155,6 +155,8 @@ PROPS['C08']['parts'] += split('harness/queue.cpp', 'C08/', 8, 2, ['g17'])
 PROPS['C08']['parts'] += [{'src': 'harness/faults.cpp', 'prefix': 'C08/', 'variants': ['g17'], 'quick_variants': ['g17O0'], 'defs': ['VERIF_PREFIX="C08/under-faults"', 'VERIF_SUB=%d' % i], 'only_sigs': 'leak|ledger|fatal'} for i in (0, 2, 4)]
 PROPS['C08']['rule'] += '; plus the fault-enumeration runs of C09 (CallbackList, EventQueue, heterogeneous and remover subjects) with only the leak/ledger clauses counted'
 PROPS['C08']['parts'] += [{'src': 'harness/pool.cpp', 'prefix': 'C08/', 'variants': ['g17'], 'quick_variants': ['g17O0'], 'defs': ['VERIF_PREFIX="C08/pool"', 'VERIF_SUB=%d' % i], 'only_sigs': 'leak|ledger|fatal'} for i in (0, 2, 4)]
+PROPS['C08']['parts'] += [{'src': 'harness/anydata.cpp', 'prefix': 'C17/', 'variants': ['g17O0'], 'defs': ['VERIF_SUB=%d' % i], 'only_sigs': 'ledger|destroyed|leak|held-object'} for i in (1, 3)]
+PROPS['C08']['rule'] += '; plus the AnyData enumeration of C17 (capacities 16 and 64: every payload kind, size, move chain and queue round trip, incl. a held type that throws) with only the ledger clauses counted'
 PROPS['C19']['parts'] += [{'src': 'harness/pool.cpp', 'prefix': 'C19/pool/CallbackList/single/near-wrap', 'variants': ['g17'], 'quick_variants': ['g17O0'], 'defs': ['VERIF_PREFIX="C19/pool"', 'VERIF_NEARWRAP_ALL', 'VERIF_SUB=0']}, {'src': 'harness/pool.cpp', 'prefix': 'C19/pool/CallbackList/multi/near-wrap', 'variants': ['g17'], 'tier': 'thorough', 'defs': ['VERIF_PREFIX="C19/pool"', 'VERIF_NEARWRAP_ALL', 'VERIF_SUB=0']}]
 PROPS['C19']['rule'] += '; plus pools of 3 CallbackLists with counters preset 0..4 steps before the wrap: copy/move construction and assignment, swap and nested additions between lists whose counters are on different sides of the wrap'
 PROPS['C08']['rule'] += '; plus the C10 object-pool searches (copies, moves, swaps of 3 container types) with the callback-copy ledger as the only oracle'
